@@ -5,7 +5,7 @@ from .core import CTX, same_array
 from . import gen
 
 STYLES = ["allsame", "alldiff", "runs", "single", "longruns"]
-DT_RL = gen.DT_ALL + ["float16"]
+DT_RL = gen.DT_ALL + ["float16"] + gen.DT_EXOTIC
 
 
 def gen_runs(rng, dtype, vclass="small", maxlen=20, style=None, length=None):
